@@ -432,7 +432,9 @@ func c01Zones(c *lib.Ctx, idx uint64) {
 	c.SetInflight(b)
 	for _, ep := range []string{"Decode", "DecodeChained"} {
 		var res lib.CallResult
-		o := lib.Guard(func() { res = lib.Call(ep, lib.NewReader(b, lib.Chunker{Kind: "whole"}), optionList(int(idx%8), &countingLogger{}, idx)...) })
+		o := lib.Guard(func() {
+			res = lib.Call(ep, lib.NewReader(b, lib.Chunker{Kind: "whole"}), optionList(int(idx%8), &countingLogger{}, idx)...)
+		})
 		c.Eval()
 		if o.Panicked || o.Hang {
 			c.Violation(b, "%s panicked/hung (hang=%v) on a well-formed file whose local timestamp is %d s away from its UTC reference: %s\n%s", ep, o.Hang, off, o.Panic, o.Stack)
